@@ -77,7 +77,14 @@ def date(  # noqa: PLR0912 PLR0911
             dat = datetime.datetime.now()
         elif dat.isdigit():
             try:
-                dat = datetime.datetime.fromtimestamp(int(dat))
+                timestamp = int(dat)
+            except ValueError:
+                # Digits `int()` doesn't read ("²"), or too many of them. Input is
+                # returned unchanged.
+                return str(dat)
+
+            try:
+                dat = datetime.datetime.fromtimestamp(timestamp)
             except (OverflowError, OSError):
                 # Out of range for the platform, as for an integer below. Input is
                 # returned unchanged.
